@@ -28,6 +28,23 @@ def all_proofs():
               assumed=['the previous non-comment chunk / previous chunk / next chunk of the newline are three arbitrary chunks (navigation not under contract); nl_squeeze_ifdef off'],
               mutants=[('namespace_rule_first', r'(?s)(   if \(next->Is\(CT_BRACE_CLOSE\)\)\n   \{.*?\n   \}\n\n)(   if \(prev->Is\(CT_BRACE_CLOSE\)\)\n   \{.*?\n   \}\n\n)', r'\2\1', 'postcondition'),
                        ('eat_after_open_dropped', r'if \(options::eat_blanks_after_open_brace\(\)\)', 'if (false)', 'postcondition')]),
+        Proof('do_blank_lines_iteration', impl='contracts/C20/dbl.impl.cpp', spec=SPEC, harness='h_do_blank_lines_iteration', plain=True, no_contract=True,
+              defines=['DBL_VC'], canaries=3, unwind=8, slice_formula=True, timeout=1200,
+              nondet_static='.*(optv_|cpd|g_nav_fuel|g_first_prevnc).*',
+              rules={'blank_line_max': [('D8', [(r'void blank_line_max\(Chunk \*pc, Option<unsigned> &opt\)', 'void blank_line_max_v(Chunk *pc, unsigned opt_value)', 'the Option<unsigned>& argument is replaced by its value: the function only calls opt()'),
+                                                (r'const auto optval = opt\(\);', 'const unsigned optval = opt_value;', 'value of the option')])],
+                     'blank_line_set': [('D8', [(r'void blank_line_set\(Chunk \*pc, Option<unsigned> &opt\)', 'void blank_line_set_v(Chunk *pc, unsigned opt_value)', 'the Option<unsigned>& argument is replaced by its value'),
+                                                (r'const unsigned optval = opt\(\);', 'const unsigned optval = opt_value;', 'value of the option')])],
+                     'do_blank_lines_body': [('D8', [(r'blank_line_(set|max)\((\w+), options::(\w+)\);', r'blank_line_\1_v(\2, options::\3());', 'option object -> its value'),
+                                                     (r'auto &opt = \(prev->GetParentType\(\) == CT_CLASS\n\s*\? options::nl_after_class\n\s*: options::nl_after_struct\);', 'const unsigned opt_v = (prev->GetParentType() == CT_CLASS ? options::nl_after_class() : options::nl_after_struct());', 'reference to an option object -> its value'),
+                                                     (r'if \(opt\(\) > pc->GetNlCount\(\)\)', 'if (opt_v > pc->GetNlCount())', 'value of the option'),
+                                                     (r'blank_line_set\(pc, opt\);', 'blank_line_set_v(pc, opt_v);', 'value of the option')])]},
+              cbmc_flags=['--bounds-check', '--pointer-check', '--signed-overflow-check', '--div-by-zero-check', '--undefined-shift-check', '--unwinding-assertions'],
+              expect=['postcondition: do_blank_lines'], functions=['newlines/blank_line.cpp:do_blank_lines (one iteration of the chunk loop, sliced as a fragment)', 'newlines/blank_line.cpp:blank_line_max', 'newlines/blank_line.cpp:blank_line_set'],
+              assumed=['can_increase_nl / is_func_proto_group / ifdef_over_whole_file answer arbitrarily; chunk navigation returns arbitrary chunks and every backward walk ends (navigation fuel)'],
+              note='direct VC; the five inner chunk walks are bounded by the navigation fuel (<= 4 steps) and unwound 8 with unwinding assertions',
+              mutants=[('cap_skipped_for_var_def', r'&& \(pc->GetNlCount\(\) > options::nl_max\(\)\)\)', '&& (pc->GetNlCount() > options::nl_max())\n         && !pc->TestFlags(PCF_VAR_DEF))', 'postcondition'),
+                       ('added_line_not_removed', r'pc->SetNlCount\(pc->GetNlCount\(\) - 1\);', ';', 'postcondition')]),
         P('too_big_for_nl_max', replace=['exit/exit_contract'], functions=['too_big_for_nl_max.cpp:too_big_for_nl_max'],
           assumed=['exit_contract (never returns)'],
           mutants=[('one_comparison_dropped', r'if \(options::nl_after_class\(\) > nl_max_local\)', 'if (false)', 'postcondition'),
@@ -39,12 +56,28 @@ PROOFS = all_proofs()
 EXPLANATION = ('Kernel of C20: blank_line_max caps nl_count at the option value (min), blank_line_set sets it, both only when the option is > 0 and the chunk is real; '
                'newlines_eat_start_end implements the documented ignore/add/remove/force policy with the _min values at both ends of the file (ghost list ends); '
                'too_big_for_nl_max returns normally only if every blank-line count option (set generated from the option documentation) is <= nl_max.')
-K = ['K5 can_increase_nl: with eat_blanks_before_close_brace / eat_blanks_after_open_brace a newline next to the brace may not grow (result false => do_blank_lines forces one line break), except for the documented overrides nl_inside_namespace > 0 and nl_inside_empty_func > 0',
+K = ['K4 do_blank_lines (one iteration of the chunk loop): with nl_max = N > 0 and every documented count option <= N, a newline chunk that is touched ends with at most N line breaks (the +-1 bookkeeping of the first / last newline included)',
+     'K5 can_increase_nl: with eat_blanks_before_close_brace / eat_blanks_after_open_brace a newline next to the brace may not grow (result false => do_blank_lines forces one line break), except for the documented overrides nl_inside_namespace > 0 and nl_inside_empty_func > 0',
      'K1 blank_line_max / blank_line_set', 'K2 newlines_eat_start_end: exact start/end-of-file policy', 'K3 too_big_for_nl_max covers every count option of the registry']
-G = ['do_blank_lines applies blank_line_max(pc, nl_max) to every newline chunk not after CT_IGNORED and the +-1 line_added bookkeeping stays within nl_max (600-line function, not under contract)',
+G = [
      'newlines_cleanup_braces, newline_add_*, eat_blanks_* (brace_pair.cpp) and the four-pass loop in uncrustify_file: not under contract',
      'main() calls too_big_for_nl_max() iff nl_max > 0, after the config is loaded and before any source is read (10-line call site, read, not sliced)',
      'Chunk::GetHead/GetTail/Delete/CopyAndAddBefore are ghost models of the list ends; the list primitives themselves are C02-K1']
+
+
+
+def static_facts(repo):
+    import re
+    t = open(os.path.join(repo, 'src/newlines/blank_line.cpp')).read()
+    a = t.find('void do_blank_lines()')
+    head = re.search(r'for \(Chunk \*pc = Chunk::GetHead\(\); pc->IsNotNullChunk\(\); pc = pc->GetNext\(\)\)\n   \{\n(.*?)\n      if \(pc->IsNot\(CT_NEWLINE\)\)\n', t[a:], re.S) if a >= 0 else None
+    pre_ok = bool(head) and not re.search(r'^\s*(?!if \(pc->Is\(CT_NEWLINE\)\)|else|\{|\}|char copy\[1000\];|LOG_FMT|__func__|pc->|get_token_name)\S', head.group(1), re.M)
+    tail = re.search(r'pc->SetNlCount\(pc->GetNlCount\(\) - 1\);\n(.*?)\n\} // do_blank_lines', t, re.S)
+    body = re.sub(r'LOG_FMT\([^;]*;', '', tail.group(1), flags=re.S) if tail else 'x'
+    tail_ok = bool(tail) and re.sub(r'\s+', '', body) == '}}'
+    return [('do_blank_lines: only the for header and log statements precede the sliced loop body', pre_ok, ''),
+            ('do_blank_lines: the sliced loop body ends the loop and the function', tail_ok, '')]
+
 
 sys.path.insert(0, os.path.join(os.path.dirname(os.path.abspath(__file__)), '..', '..', 'tools'))
 import replay_lib  # noqa: E402
